@@ -104,6 +104,7 @@ type ledgerInst struct {
 	runnerDead  bool
 	writeFailed bool
 	writeCalls  int
+	pubCalls    int
 	closing     bool // Commander.Close() has been called by a shutdown task
 	runnerTask  *Task
 }
@@ -130,6 +131,7 @@ type Sim struct {
 	constraint []string
 
 	harnessErr string
+	spinning   int
 	startTime  time.Time
 	simTime    time.Duration
 }
@@ -326,9 +328,9 @@ func (s *Sim) root() {
 					died = true
 				}
 			}
-			if g.shutdownDone && !died && !g.bootFail {
+			if g.shutdownDone && !died && !g.bootFail && onlyLockWaiters(s.sched.snapshotParked()) {
 				s.sched.Logf("step %d: shutdown complete gen=%d", s.sched.step, g.Idx)
-				s.kill(g, true)
+				s.kill(g, !g.orderly)
 				if !s.nextGeneration() {
 					break
 				}
@@ -369,21 +371,41 @@ func (s *Sim) root() {
 		}
 		if len(ps) == 0 {
 			if s.generationFinished() {
-				if len(s.gens) < len(s.in.Gens) {
-					s.sched.Logf("step %d: orderly restart after gen=%d", s.sched.step, s.cur.Idx)
+				// orderly end of the generation: Commander.Close() runs as a task (it may have
+				// background work to drain, which the scheduler keeps serving), then the process is gone
+				g := s.cur
+				if !g.shutdown {
+					g.shutdown, g.orderly = true, true
+					s.sched.Logf("step %d: orderly stop of gen=%d", s.sched.step, g.Idx)
 					s.count("restart.orderly")
-					s.kill(s.cur, false)
-					s.startGeneration(len(s.gens))
+					s.spawnShutdown(g)
 					continue
 				}
-				break
+				if !g.shutdownDone {
+					s.harnessErr = fmt.Sprintf("Commander.Close() of generation %d does not return although every request has been answered", g.Idx)
+					break
+				}
 			}
 			s.stuck()
 			break
 		}
+		// only waiters of a mutex whose holder is blocked for good (e.g. in Append after the runner
+		// has been closed) are left: nothing can make progress any more
+		if onlyLockWaiters(ps) {
+			s.spinning++
+			if s.spinning > 2*len(ps)+2 {
+				s.stuck()
+				break
+			}
+		} else {
+			s.spinning = 0
+		}
 		p := s.sched.pick(ps)
 		s.sched.Logf("step %d: run %s @%s", s.sched.step, p.Name, p.point)
 		s.sched.last = p
+		if p.alias != nil {
+			s.sched.last = p.alias
+		}
 		p.counted = false
 		s.sched.release(p)
 	}
@@ -645,15 +667,7 @@ func (s *Sim) applyFault(f Fault, ps []*Task) bool {
 		s.sched.Logf("step %d: FAULT shutdown gen=%d", s.sched.step, g.Idx)
 		s.count("fault.shutdown")
 		s.classifyCrashWindow(ps)
-		s.sched.spawn(g.ctx, g, fmt.Sprintf("g%d.shutdown", g.Idx), func(ctx context.Context, t *Task) {
-			for _, li := range g.ledgers {
-				if li.running && !li.runnerDead && !g.dead.Load() {
-					li.closing = true
-					li.commander.Close()
-				}
-			}
-			g.shutdownDone = true
-		})
+		s.spawnShutdown(g)
 		return true
 	case "clock":
 		d := time.Duration(f.Arg) * time.Microsecond
@@ -693,6 +707,27 @@ func (s *Sim) applyFault(f Fault, ps []*Task) bool {
 		return true
 	}
 	return true
+}
+
+func onlyLockWaiters(ps []*Task) bool {
+	for _, p := range ps {
+		if !strings.HasSuffix(p.point, ".lockwait") {
+			return false
+		}
+	}
+	return true
+}
+
+func (s *Sim) spawnShutdown(g *Generation) {
+	s.sched.spawn(g.ctx, g, fmt.Sprintf("g%d.shutdown", g.Idx), func(ctx context.Context, t *Task) {
+		for _, li := range g.ledgers {
+			if li.running && !li.runnerDead && !g.dead.Load() {
+				li.closing = true
+				li.commander.Close()
+			}
+		}
+		g.shutdownDone = true
+	})
 }
 
 // applyOpCancels cancels requests whose CancelAtYield count has been reached.
@@ -749,9 +784,16 @@ type simPublisher struct {
 func (p *simPublisher) Publish(topic string, msgs ...*message.Message) error {
 	for _, m := range msgs {
 		ctx := m.Context()
-		if t := taskFrom(ctx); t != nil {
-			p.sim.sched.yieldTask(t, "pub."+topic, true)
+		if p.gen.dead.Load() {
+			return nil
 		}
+		// The publishing goroutine need not be the request's own (an implementation may publish
+		// from a background goroutine): it parks under an identity of its own, remembered as
+		// acting for the request's task so that "keep running the same task" still means that.
+		p.li.pubCalls++
+		wt := p.sim.sched.adhocTask(p.gen, fmt.Sprintf("g%d.%s.pub%d", p.gen.Idx, p.li.name, p.li.pubCalls))
+		wt.alias = taskFrom(ctx)
+		p.sim.sched.yieldTask(wt, "pub."+topic, true)
 		if p.gen.dead.Load() {
 			return nil
 		}
